@@ -13,6 +13,9 @@ enum Status {
     Finished,
 }
 
+/// wall-clock patience before a run is declared blocked on a foreign primitive (see `yield_point`)
+const STUCK_MS: u64 = 3000;
+
 pub enum Source {
     /// draw decisions from the policy
     Policy(SchedSpec),
@@ -35,6 +38,7 @@ struct State {
     max_decisions: u64,
     overrun: bool,
     free_run: bool,
+    foreign_block: bool,
     trace: Vec<u8>,
     // PCT state
     prio: Vec<u32>,
@@ -61,6 +65,7 @@ pub struct SchedStats {
     pub decisions: u64,
     pub switches: u64,
     pub overrun: bool,
+    pub foreign_block: bool,
     pub explicit_diverged: bool,
     pub switches_while_two_in_exec: u64,
     pub preempt_pairs: Vec<(u32, u32)>,
@@ -106,6 +111,7 @@ impl Sched {
                 max_decisions,
                 overrun: false,
                 free_run: false,
+                foreign_block: false,
                 trace: Vec::new(),
                 prio,
                 change_points,
@@ -286,7 +292,22 @@ impl Sched {
             st.current = next;
             self.cvs[next].notify_all();
             while !(st.free_run || st.current == tid) {
-                st = self.cvs[tid].wait(st).unwrap();
+                // The baton holder normally reaches its next hook point within microseconds. If no
+                // decision at all is made for STUCK_MS of wall time, the holder is blocked in the
+                // kernel on something a parked thread owns (a lock added by the code under test):
+                // an artefact of serialising threads, not a behaviour of the code. Stop scheduling
+                // and let all threads run freely; the oracles stay sound on any real execution,
+                // only deterministic replay of this run is lost (flagged `foreign_block`).
+                let seen = st.decisions;
+                let (g, to) = self.cvs[tid].wait_timeout(st, std::time::Duration::from_millis(STUCK_MS)).unwrap();
+                st = g;
+                if to.timed_out() && !st.free_run && st.current != tid && st.decisions == seen {
+                    st.foreign_block = true;
+                    st.free_run = true;
+                    for cv in &self.cvs {
+                        cv.notify_all();
+                    }
+                }
             }
             st.parked_site[tid] = u32::MAX;
         }
@@ -328,6 +349,7 @@ impl Sched {
             decisions: st.decisions,
             switches: st.switches,
             overrun: st.overrun,
+            foreign_block: st.foreign_block,
             explicit_diverged: st.explicit_diverged,
             switches_while_two_in_exec: st.switches_while_two_in_exec,
             preempt_pairs: st.preempt_pairs.iter().copied().collect(),
